@@ -95,7 +95,7 @@ def _(self: "Type") -> "Bool":
     ensures("def", result == isinstance(self, TypeConstructor))
 
 
-@external("src.ir.types.<cond>")
+@external("src.ir.types.<cond>", pure=True)
 def _(t: "Type") -> "Bool":
     """the predicate passed as `cond` (a lambda at the call sites): pure, arbitrary"""
     pass
